@@ -174,10 +174,9 @@ def handle (op : String) (args : List String) : Option String :=
       match rest with
       | [hex] => (hexBytes? hex).map (plyClass h)
       | _ => none
-  | "c14.holds.disk_agrees", [_fmt, entry, _k, memCls, diskCls] =>
+  | "c14.holds.disk_agrees", [_fmt, _entry, _k, memCls, diskCls] =>
       -- the format's on-disk Load helper on a temp file holding the same bytes: same verdict class as the in-memory reader
-      -- (spz.Load wraps a read error in panic(err), load.go:262 — reported; class panic stands for err there)
-      some (boolStr (memCls == diskCls || (entry == "spz.Load" && memCls == "err" && diskCls == "panic")))
+      some (boolStr (memCls == diskCls))
   | "c14.holds.pts_one_point", [t, cls] => do
       -- a one-point PTS file cut inside its point line after `t` tokens, accepted by the implementation with class
       -- `cls`: by `pts_one_point_exact` the record has intensity iff t > 3 and colour iff t > 6 (absent otherwise)
